@@ -21,7 +21,7 @@ prop("C18", ["T-CSLEEP", "T-DUMMY-ZP", "T-PROTECT-REGION", "T-OPT-PROT", "T-OPT-
 prop("C10", ["T-PREC", "T-CALC-OPS", "T-FOLD", "T-DIV-GUARD", "T-SIZEOF", "M-DIV-SITES"])
 import rules_total  # noqa
 import rules_treewalk  # noqa
-prop("C16", ["T-TREEWALK", "T-PRATT-TOTAL", "T-TOKEN-DOMAIN", "T-ERR-UNWRAP", "T-LOC-INDEX", "T-VARIANT-FLOW", "T-DIV-GUARD", "T-INUSE-CLOSURE", "M-ERR-UNWRAP", "M-DIV-SITES"])
+prop("C16", ["T-TREEWALK", "T-PRATT-TOTAL", "T-TOKEN-DOMAIN", "T-ERR-UNWRAP", "T-LOC-INDEX", "T-VARIANT-FLOW", "T-DIV-GUARD", "T-INUSE-CLOSURE", "T-LOOP-EXIT-SIBLINGS", "M-ERR-UNWRAP", "M-DIV-SITES"])
 import rules_misc  # noqa
 prop("C12", ["T-CALL-EMIT", "T-CALL-RECORD", "T-CALL-WRITERS", "T-INUSE-CLOSURE"])
 prop("C11", ["T-OPTION-CONFINE", "T-ASMLINE-SIBLINGS", "T-CPP-SCAN-SIBLINGS", "T-OPT-PEEK"])
@@ -30,5 +30,5 @@ prop("C15", ["T-CMPXFORM", "T-FLAGS-DIRTY", "T-LABEL-KILL"])
 import rules_flow  # noqa
 import rules_mir  # noqa
 prop("C01", ["T-PREC", "T-BRANCH", "T-CMPXFORM", "T-STACK-PAIR", "T-FLAGS-DIRTY", "T-FLAGS-VALUE", "T-LABEL-KILL"])
-prop("C13", ["T-ASM-MODE", "T-LABEL-UNIQUE", "T-LABEL-DEF", "T-CONTINUE-FLAG", "T-INLINE-LABELS", "T-HANDBUILT"])
+prop("C13", ["T-ASM-MODE", "T-LABEL-UNIQUE", "T-LABEL-DEF", "T-CONTINUE-FLAG", "T-LOOP-EXIT-SIBLINGS", "T-INLINE-LABELS", "T-HANDBUILT"])
 prop("C17", ["T-ASM-PORT", "T-RMW-GUARD"])
